@@ -24,4 +24,5 @@ PrsQuick == {{}, {<<0, 1>>}, {<<1, 0>>}, {<<0, N - 1>>, <<N - 1, 1>>}, PairsOf(N
 PrsAll == SUBSET (PairsOf(N) \cup {Rev(q) : q \in PairsOf(N)})
 PrsMid == {s \in PrsAll : Cardinality(s) <= 2} \cup {PairsOf(N)}
 NoSets == {{}}
+NoPart == -1
 =============================================================================
